@@ -548,13 +548,14 @@ def wgDist (wgPerCU : Nat) : List Nat → Nat → List Nat
   | [], acc => [acc]
   | c :: cs, acc => acc :: wgDist wgPerCU cs (acc + c * wgPerCU)
 
-/-- `(totalWGCount-1)/totalCUCount + 1` in Go `int` arithmetic (truncating division);
-    `total = 0` only arises from `uint32` wrap-around of the product -/
-def wgPerCU (total sumCU : Nat) : Nat :=
-  if total = 0 then (if sumCU = 1 then 0 else 1) else (total - 1) / sumCU + 1
+/-- `(totalWGCount + totalCUCount - 1) / totalCUCount` in Go `int` (after the `fix:` be858c27: ceiling of
+    total / CUs, 0 for an empty grid; equal to the former `(total-1)/CUs + 1` whenever `total > 0`);
+    tied to the source by `Props/C18Plat.lean` (`wgPerCU_eq_gen`) -/
+def wgPerCU (total sumCU : Nat) : Nat := (total + sumCU - 1) / sumCU
 
-/-- `(grid-1)/wg + 1` in `uint32` -/
-def numWG (grid wg : Nat) : Nat := ((grid + 4294967296 - 1) % 4294967296) / wg + 1
+/-- `numWGInDim`: `(int(gridSize) + int(wgSize) - 1) / int(wgSize)` (after the `fix:` be858c27; equal to the
+    former `uint32` `(grid-1)/wg + 1` whenever `grid > 0`); tied to the source by `numWG_eq_gen` -/
+def numWG (grid wg : Nat) : Nat := (grid + wg - 1) / wg
 
 /-- last element (`wgAllocated` after the loop) -/
 def lastD : List Nat → Nat → Nat
@@ -587,7 +588,7 @@ def handleWg (cfg : List String) : String :=
   match (kv? cfg "cus").bind (natList? ·), (kv? cfg "grid").bind (natList? ·), (kv? cfg "wgs").bind (natList? ·) with
   | some cus, some [gx, gy, gz], some [wx, wy, wz] =>
     if wx = 0 ∨ wy = 0 ∨ wz = 0 then "fault:divzero" else
-    let total := (numWG gx wx * numWG gy wy * numWG gz wz) % 4294967296
+    let total := numWG gx wx * numWG gy wy * numWG gz wz
     match distributeWG cus total with
     | .fault k => "fault:" ++ k
     | .dist d => s!"total={total} dist=" ++ joinWith "," (d.map toString) ++
